@@ -66,7 +66,7 @@ def run(c, chk):
                     break
             if bad:
                 break
-            st = [e for e in tr.events if e.kind == 'store' and not (e.addr[0] == 'alloca')]
+            st = [e for e in tr.events if e.kind == 'store' and sym.object_of(e.addr)[0] != 'alloca']
             if st:
                 bad = (tr, 'writes %s' % sym.render(st[0].addr))
                 break
